@@ -6,6 +6,7 @@
                                                      (what hook H4 records for the main pass) or UNSUPPORTED <reason>
 -/
 import LouModel.Table
+import LouModel.Pass
 import LouModel.Forward
 import LouModel.Compile
 import LouModel.Backward
@@ -103,6 +104,25 @@ def handle? (reg : List (String × Table)) (toks : List String) : Option String 
         let r := Back.translate t mode input cap (cur.getD (-1))
         let ms := if r.map.isEmpty then "." else ",".intercalate (r.map.map fun (o : Option Int) => match o with | some v => toString v | none => "?")
         pure s!"P {showWide r.out} {ms} {r.realInlen} {r.cpos} {r.cstat} rules={showRules r.applied}").getD "BADOP"
+  | ["MPASS", name, dir, pass, cap, inh] =>
+    some <| (do
+      let t ← (reg.find? (fun (e : String × Table) => e.1 == name)).map (fun (e : String × Table) => e.2)
+      let pass ← pass.toNat?
+      let cap ← cap.toNat?
+      let input ← parseWide inh
+      let r := if dir == "b" then Pass.backStage t pass input cap else Pass.fwdStage t pass input cap
+      match r with
+      | .unsupported => pure "UNSUPPORTED instruction outside the literal fragment"
+      | .fuel => pure "FUEL"
+      | .done o =>
+        let ms := if o.map.isEmpty then "." else ",".intercalate (o.map.map fun (v : Int) => if v == Pass.unset then "?" else toString v)
+        pure s!"P {showWide o.out} {ms} {o.realInlen} rules={",".intercalate (o.applied.map toString)}").getD "BADOP"
+  | ["MPASSCHK", name] =>
+    some <| match reg.find? (fun (e : String × Table) => e.1 == name) with
+      | some e => match Pass.passTableOK e.2 with
+        | [] => "PK ok"
+        | bad => "PK " ++ " ".intercalate bad
+      | none => "BADOP"
   | _ => none
 
 end Lou.EngineProto
